@@ -470,6 +470,10 @@ def gen_scripts(tier, seed):
                 sc[st] = k
                 sc["how"][st] = how if st != "status" else ("request" if how == "request" else "segment")
                 out.append(sc)
+    # handshakes inside the retry budget that take longer than a minute (the client's own ping thread
+    # gives up on "is connected" after 45 s - the engine must go on)
+    for ks_ in ((8, 8, 1, 1), (9, 1, 9, 1), (6, 6, 6, 1), (10, 10, 10, 1), (1, 8, 8, 2)):
+        out.append({**dict(zip(steps, ks_)), "how": {st: "request" if st != "status" else "segment" for st in steps}})
     for _ in range(20 if tier == "quick" else 200):
         out.append({**{st: r.choice([1, 1, 2, 3, 5]) for st in steps}, "how": {st: r.choice(["request", "reply"]) if st != "status" else r.choice(["request", "segment"]) for st in steps}})
     return out
